@@ -182,6 +182,7 @@ func run(p *propDef, tier, repo, verif string, seed int, explainKey string, noEv
 		perArch = append(perArch, fmt.Sprintf("%s: %d obligations (%d new)", an, len(cc.obs), n))
 		if c == nil {
 			c = cc
+			runControls(p, verif, c)
 		} else {
 			for f := range cc.analysed {
 				c.analysed[f] = true
